@@ -1971,13 +1971,16 @@ output(std::ostream &out, int indent_level, CPPScope *scope, bool) const {
       break;
 
     case UNARY_MINUS:
-      out << '-';
-      _u._op._op1->output(out, indent_level, scope, false);
-      break;
-
     case UNARY_PLUS:
-      out << '+';
-      _u._op._op1->output(out, indent_level, scope, false);
+      out << (_u._op._operator == UNARY_MINUS ? '-' : '+');
+      if (_u._op._op1->_type == T_unary_operation) {
+        // Avoid writing -(-3) as --3, which is a decrement.
+        out << '(';
+        _u._op._op1->output(out, indent_level, scope, false);
+        out << ')';
+      } else {
+        _u._op._op1->output(out, indent_level, scope, false);
+      }
       break;
 
     case UNARY_STAR:
